@@ -89,12 +89,29 @@ func NewContextWith(data map[string]interface{}) *Context {
 	}
 
 	for k, v := range Helpers.All() {
-		if !c.Has(k) {
+		if !c.defines(k) {
 			c.Set(k, v)
 		}
 	}
 
 	return c
+}
+
+// defines reports whether key is bound in this scope or an enclosing one - to
+// anything, nil included: a name the user has bound to nil is taken, the
+// built-in helper of that name must not come back in its place.
+func (c *Context) defines(key string) bool {
+	for cc := c; cc != nil; cc = cc.outer {
+		cc.moot.Lock()
+		_, ok := cc.data[key]
+		cc.moot.Unlock()
+
+		if ok {
+			return true
+		}
+	}
+
+	return false
 }
 
 // NewContextWith returns a fully formed context using the data
@@ -109,7 +126,7 @@ func NewContextWithOuter(data map[string]interface{}, out *Context) *Context {
 	}
 
 	for k, v := range Helpers.All() {
-		if !c.Has(k) && !c.outer.Has(k) {
+		if !c.defines(k) {
 			c.Set(k, v)
 		}
 	}
